@@ -539,7 +539,7 @@ func (c *Ctx) c03CopyStartsAtBoundary() {
 		_, rp := pathOf(readerArg)
 		fn := site.Parent()
 		for _, ci := range core.Calls(fn) {
-			if !core.InstrDominates(ci, site) {
+			if !core.InstrDominates(ci, site) && !reachedOnlyAfterSuccess(ci, site) {
 				continue
 			}
 			if readerMethod(ci) == "GetBytes" {
